@@ -152,3 +152,59 @@ Check (C14_bb_fault_state : forall f ck fp kind o sizes autosql input,
   exists n, snd (bb_sink_run f ck fp kind o sizes autosql input)
             = firstn n (snd (bb_sink_run None ck fp kind o sizes autosql input))).
 End PinC14Bed.
+
+(* ---- zoom queries at crash points ---- *)
+From BT Require Proofs.ZoomFile Proofs.ZoomReadCodec Proofs.ZoomReadFile Proofs.SinkReadZoom.
+Module PinC14Zoom.
+Import Base.LE Base.Float Generated.Consts Model.RTree Model.BBIFile Model.BigWigWrite Model.BBIRead Model.SinkTrace
+  Proofs.BigWigFileRoundTrip Proofs.RTreeCodec Proofs.BigWigQuery
+  Proofs.SinkBytes Proofs.SinkExec Proofs.SinkPhases Proofs.SinkServe Properties.C14.
+Local Open Scope N_scope.
+Check (eq_refl : ZoomReadFile.ztouch = fun s e z => (s <=? z_end z) && (z_start z <=? e)).
+Check (eq_refl : ZoomFile.manual_u32 = fun o =>
+  match o_manual o with Some zs => Forall (fun z => z < U32) zs | None => True end).
+Check (eq_refl : SinkReadZoom.serves_zoom = fun fp o sizes inp F X =>
+  exists i, read_info F = Ok i /\ read_info X = Ok i /\
+    forall (infl : list N -> list N) r c vs s e, In r (map zh_res (i_zooms i)) -> In (c, vs) (runs inp) ->
+      exists id len st, chrom_id i c = Ok id /\ 1 <= r
+        /\ lookup c sizes = Some len /\ wf_vals len vs
+        /\ zoom_chrom fp (o_ips o) r id vs zstate0 = Ok st
+        /\ zoom_interval infl X i c s e r
+           = Ok (map (ZoomReadCodec.zrec_read fp) (filter (ZoomReadFile.ztouch s e) (concat (zs_out st))))
+        /\ zoom_interval infl F i c s e r
+           = Ok (map (ZoomReadCodec.zrec_read fp) (filter (ZoomReadFile.ztouch s e) (concat (zs_out st))))).
+Check (C14_prefix_serves_zoom : forall ck fp kind o sizes input p n c,
+  chunker_ok ck -> bw_parts fp kind o sizes input = Ok p ->
+  (kind = 0 /\ Forall (fun z => z < U32) (zoom_sizes_single o)) \/ (kind = 1 /\ ZoomFile.manual_u32 o) ->
+  opts_ok o -> input_ok sizes input -> Nlen (final_bytes p) < U64 ->
+  (header_index ck kind p < n)%nat ->
+  let T := snd (bw_sink_run None ck fp kind o sizes input) in
+  SinkReadZoom.serves_zoom fp o sizes input (replay T) (replay (cut_ops T n c))).
+End PinC14Zoom.
+
+From BT Require Model.BedSweep Proofs.C08FileQuery Proofs.SinkBedReadZoom.
+Module PinC14BedZoom.
+Import Base.LE Base.Float Generated.Consts Model.RTree Model.BBIFile Model.BigWigWrite Model.BBIRead Model.SinkTrace
+  Proofs.RTreeCodec Proofs.SinkBytes Proofs.SinkExec
+  Model.BigBedWrite Model.BBIReadBed Model.SinkTraceBed Proofs.BedEndToEnd Proofs.SinkBedPhases Proofs.SinkBedServe Properties.C14.
+Local Open Scope N_scope.
+Check (eq_refl : C08FileQuery.zoom_res_u32 = fun (two_pass : bool) o =>
+  if two_pass then ZoomFile.manual_u32 o else Forall (fun z => z < U32) (zoom_sizes_single o)).
+Check (eq_refl : SinkBedReadZoom.bb_serves_zoom = fun fp o input F X =>
+  exists i, read_info F = Ok i /\ read_info X = Ok i /\
+    forall r, In r (map zh_res (i_zooms i)) -> 1 <= r /\
+      forall infl c es s e, In (c, es) (bruns input) ->
+        exists q secs, chrom_id i c = Ok q
+          /\ BedSweep.bb_zoom_records fp (o_ips o) r q (map to_sw es) = Ok secs
+          /\ zoom_interval infl X i c s e r
+             = Ok (map (ZoomReadCodec.zrec_read fp) (filter (fun z => (s <=? z_end z) && (z_start z <=? e)) (concat secs)))
+          /\ zoom_interval infl F i c s e r
+             = Ok (map (ZoomReadCodec.zrec_read fp) (filter (fun z => (s <=? z_end z) && (z_start z <=? e)) (concat secs)))).
+Check (C14_bb_prefix_serves_zoom : forall ck fp kind o sizes autosql input sql p n c,
+  chunker_ok ck -> bb_parts fp kind o sizes autosql input = Ok (sql, p) ->
+  file_hyps o sizes input (final_bytes p) ->
+  C08FileQuery.zoom_res_u32 (negb (kind =? 0)) o ->
+  (bb_header_index ck kind sql p < n)%nat ->
+  let T := snd (bb_sink_run None ck fp kind o sizes autosql input) in
+  SinkBedReadZoom.bb_serves_zoom fp o input (replay T) (replay (cut_ops T n c))).
+End PinC14BedZoom.
